@@ -20,7 +20,7 @@ import (
 // Suite is a list of N(tier) deterministic cases.
 type Suite struct {
 	Name string
-	// Build selects the binary the workers run: "" (plain), "race", "asan".
+	// Build selects the binary the workers run: "" (plain), "race", "asan", "386" (GOARCH=386: 32-bit int).
 	Build string
 	// Env is added to the worker environment.
 	Env []string
